@@ -85,6 +85,9 @@ structure LexCfg where
   realNullReported : Bool := false
   /-- `ReadNumber` reports a token that converts to `S_NUMBER_NULL` = (double)FLT_MIN (fixes/C09-9) -/
   numberNullReported : Bool := false
+  /-- the recovery loop of `CheckRemainingInput` ends at a `;` outside a string literal — the end of the record — puts it
+      back and reports INPUT_ERROR (fixes/C05-15); otherwise it runs on to the next delimiter or the end of the input -/
+  criStopsAtSemicolon : Bool := false
 deriving Repr, DecidableEq
 
 /-- `c` is one of the characters of the delimiter list -/
@@ -104,6 +107,22 @@ def attrDelims : List Byte := [44, 41]
 def skipTo (cfg : LexCfg) (ds : List Byte) : Byte → List Byte → List Byte → Byte × List Byte × List Byte × Bool
   | c, l, [] => (c, l, [], true)
   | _, l, x :: r => if delimAt cfg ds x then (x, x :: l, r, false) else skipTo cfg ds x (x :: l) r
+
+/-- the repaired recovery loop (fixes/C05-15): as `skipTo`, but an apostrophe toggles `inString` and a `;` outside a string
+    ends the skip — it is put back, `endOfRecord` is set.  Returns (last `c`, consumed side, rest, ran into the end,
+    `endOfRecord`). -/
+def skipToRec (cfg : LexCfg) (ds : List Byte) : Bool → Byte → List Byte → List Byte → Byte × List Byte × List Byte × Bool × Bool
+  | _, c, l, [] => (c, l, [], true, false)
+  | inStr, _, l, x :: r =>
+    if delimAt cfg ds x then (x, x :: l, r, false, false)
+    else if x == 39 then skipToRec cfg ds (!inStr) x (x :: l) r
+    else if x == 59 && !inStr then (x, l, x :: r, false, true)
+    else skipToRec cfg ds inStr x (x :: l) r
+
+/-- the recovery loop as the configuration has it: (last `c`, consumed side, rest, ran into the end, `endOfRecord`) -/
+def skipGarbage (cfg : LexCfg) (ds : List Byte) (c : Byte) (l r : List Byte) : Byte × List Byte × List Byte × Bool × Bool :=
+  if cfg.criStopsAtSemicolon then skipToRec cfg ds false c l r
+  else ((skipTo cfg ds c l r).1, (skipTo cfg ds c l r).2.1, (skipTo cfg ds c l r).2.2.1, (skipTo cfg ds c l r).2.2.2, false)
 
 /-- body of a comment after `/*` (`prev` = previous character, 0 at the start): consumes through the closing `*/`;
     `none` = unterminated, everything was consumed -/
@@ -145,9 +164,9 @@ def checkRemainingInput (cfg : LexCfg) (delims : Option (List Byte)) (s : IStrea
         let (c, s2) := s1.peekC
         if delimAt cfg ds c then (s2, err)
         else
-          let (c', l, r, hitEnd) := skipTo cfg ds c s2.left s2.right
+          let (c', l, r, hitEnd, endOfRecord) := skipGarbage cfg ds c s2.left s2.right
           let s3 : IStream := { s2 with left := l, right := r, eof := hitEnd, fail := hitEnd }
-          if delimAt cfg ds c' then (s3.putback c', err.greater .warning)
+          if !endOfRecord && delimAt cfg ds c' then (s3.putback c', err.greater .warning)
           else (s3, err.greater .inputError)
       | none => if s1.good then (s1, err.greater .warning) else (s1, err)
 
@@ -595,7 +614,7 @@ def attrWrite {F} (ops : FloatOps F) (k : Kind) (v : Value F) : List Byte :=
 
 /-- `ostream << double` with `precision(15)`: `%.15g`, i.e. `%.15G` with lower-case letters -/
 def fmtg15 {F} (ops : FloatOps F) (v : F) : List Byte :=
-  (ops.fmtG15 v).map (fun b => if isUpper b then b + 32 else b)
+  (ops.fmtPlain15 v).map (fun b => if isUpper b then b + 32 else b)
 
 /-- `STEPattribute::asStr` -/
 def attrAsStr {F} (ops : FloatOps F) (cfg : LexCfg) (k : Kind) (v : Value F) : List Byte :=
